@@ -267,7 +267,7 @@ fn check_type<T: Jetty + Serialize + DeserializeOwned>(tname: &str, ctx: &Ctx, s
     let shape = T::shape((0, 0));
     let n = shape.nslots();
     let bits_eq = |a: &[f64], b: &[f64]| a.len() == b.len() && a.iter().zip(b).all(|(x, y)| x.to_bits() == y.to_bits());
-    for ci in 0..ctx.n(300, 30000) {
+    for ci in 0..ctx.n(300, 1000000) {
         if ci % nshards as u64 != shard as u64 {
             continue;
         }
